@@ -244,3 +244,20 @@ CHECKS["C11"] = dict(
                      "TestC11Step.applied": 150, "TestC11Step.ignored": 700}),
     assumptions=["messages are delivered before the next action (quiescence between actions); delayed/reordered delivery is exercised by the end-to-end engine"],
 )
+
+CHECKS["C09"] = dict(
+    level="fault_enumeration",
+    rule=("C09Chan: case index enumerates the product {9 statuses from which an ending can be taken (injected records)} x {cancel, error, complete} x {racing bookkeeping events "
+          "delivered before / during (the environment double holds CleanupChannel open on the virtual clock) / after the cleanup} x role; 1-3 PRNG racing events. Per ending: "
+          "transport cleanup and un-protect exactly once, settles in the matching terminal status, cleanup precedes the terminal snapshot. C09Close: real manager over the REAL "
+          "graphsync transport over a graphsync double: role (4) x graphsync request state {no transport channel, tracked via UseStore but never opened, open, cancelled by an "
+          "earlier close, cancelled by the remote requester, completed} x {user close, close-with-error} x cancel-message send {ok, fails at once, fails after 3 virtual seconds}: "
+          "the close call has returned when the bubble is idle, final status Cancelled/Failed, exactly one cancel message of the right kind to the counterparty, one un-protect, "
+          "no tracking/route/store/span/options left (hook snapshot). distinct = (status, ending, timing) resp. (role, request state, close kind, send mode, status)."),
+    parts=[
+        dict(test="TestC09Chan", quick=324, thorough=9720, per_shard=54),
+        dict(test="TestC09Close", quick=192, thorough=9600, per_shard=24),
+    ],
+    floors=dict(any={"TestC09Chan.endings": 300, "TestC09Close.closes": 120}),
+    assumptions=["'promptly' is decided on the virtual clock: the call must have returned when the bubble is idle 2 virtual minutes later"],
+)
